@@ -54,3 +54,35 @@ def learnAll [BEq α] [Neg α] [Div α] [Add α] [Sub α] [Mul α] (ofNat : Nat 
   steps.foldl (fun ag s => learn ofNat ag s.1 s.2) a
 
 end BlackIt.Bandit
+
+namespace BlackIt.Bandit
+
+variable {α : Type}
+
+/-! ### the chain scheduler → environment over a run
+
+`RLScheduler.update` keeps the best loss seen so far (`_best_loss`; the bootstrap batch sets it and the environment's
+reference) and hands it over after every agent-chosen batch; `MABCalibrationEnv.get_reward` turns it into a reward
+against its own reference.  By C10 the outcomes reach the agent one at a time, in batch order, exactly once — so over
+a run both sides are plain folds over the sequence of per-batch minimum losses. -/
+
+/-- `_best_loss` after each agent-chosen batch (`boot` = the bootstrap batch's minimum loss) -/
+def schedBests [LT α] [DecidableLT α] (boot : α) : List α → List α
+  | [] => []
+  | l :: ls => let b := if l < boot then l else boot; b :: schedBests b ls
+
+/-- the rewards the environment computes for the successive outcomes, starting from reference `cur` -/
+def envRewards [LT α] [DecidableLT α] [Sub α] [Div α] (zero : α) (cur : α) : List α → List α
+  | [] => []
+  | b :: bs => let r := getReward zero cur b; r.1 :: envRewards zero r.2 bs
+
+/-- the rewards of a run: bootstrap loss, then the minimum loss of every agent-chosen batch -/
+def runRewards [LT α] [DecidableLT α] [Sub α] [Div α] (zero : α) (boot : α) (losses : List α) : List α :=
+  envRewards zero boot (schedBests boot losses)
+
+/-- the published rule applied to each batch's own outcome: relative improvement over the best loss before that batch -/
+def rewardsByRule [LT α] [DecidableLT α] [Sub α] [Div α] (zero : α) (best : α) : List α → List α
+  | [] => []
+  | l :: ls => if l < best then ((best - l) / best) :: rewardsByRule zero l ls else zero :: rewardsByRule zero best ls
+
+end BlackIt.Bandit
